@@ -319,10 +319,10 @@ func (e *e2eEnv) dial(c E2ECase, bound time.Duration) (*varlink.Connection, *Pro
 func (e *e2eEnv) stop(bound time.Duration) error {
 	defer e.cleanup()
 	dl := time.Now().Add(bound)
-	for e.svc.VerifActiveConnections() != 0 && time.Now().Before(dl) {
+	for activeConns(e.svc) != 0 && time.Now().Before(dl) {
 		time.Sleep(100 * time.Microsecond)
 	}
-	if n := e.svc.VerifActiveConnections(); n != 0 {
+	if n := activeConns(e.svc); n != 0 {
 		e.svc.Shutdown()
 		return fmt.Errorf("active-connection count is %d after every client connection was closed", n)
 	}
